@@ -694,7 +694,7 @@ Theorem q2s_rejects items z : invalid_q2e items z z = true -> q2s items z = Err.
 Proof. intros H. apply (flag_rejects _ _ (q2s_flag items z)), q2e_invalid_err, H. Qed.
 
 (* ---- ConvertTileXYZsToExtendedSpatialIDs / ConvertTileXYZsToSpatialIDs(tiles, E, O, outV): validation prefix written here
-        (the model of C13 is not compiled yet): extendedSpatialIDCheckZoom(0, outV) before the loop (fix 322d7d5: an empty request
+        (the executable model is Tile.tiles_to_eids, C13): extendedSpatialIDCheckZoom(0, outV) before the loop (fix 322d7d5: an empty request
         is checked too), then for each tile in order extendedSpatialIDCheckZoom(tile.hZoom, outV) and
         ConvertAltitudekeyToMinMaxZ(tile.z, tile.vZoom, outV, E, O) (AltKeyCore.key2z); the first failure ends the call.
         The spatial form adds ConvertExtendedSpatialIDToSpatialIDs, which cannot fail. Documented: outV in 0..35. ---- *)
